@@ -370,10 +370,14 @@ func c15(c *Ctx) {
 			if goIns == nil || len(never) == 0 {
 				c.R.Unknown(load.FuncName(rec)+": tee goroutine / PullNever", c.pos(rec.Pos()), "not found")
 			} else {
+				// the tee goroutine is not reachable on paths consistent with
+				// "pull policy is Never": from an edge on which a PullNever flag is
+				// true, without crossing an edge on which that same flag is false
 				paths, _, ok := cfgx.FeasiblePaths(goIns, 200000)
 				bad := 0
-				for _, p := range paths {
-					if p.CrossesAny(never) {
+				for _, fl := range pullNeverFlags(rec) {
+					t, f := cfgx.DirectCondEdges(fl)
+					if r, _ := cfgx.ReachableFromEdges(t, goIns, f, nil); r {
 						bad++
 					}
 				}
@@ -579,4 +583,55 @@ func pkgCondStatus(v ssa.Value) (status, typ, ctor string) {
 		}
 	}
 	return status, typ, f.Name()
+}
+
+// pullNeverFlags: the comparison with corev1.PullNever and every boolean that
+// can only be true when that comparison is (`never := p != nil && *p == PullNever`,
+// `never := false; if cmp { never = true }`).
+func pullNeverFlags(fn *ssa.Function) []ssa.Value {
+	in := map[ssa.Value]bool{}
+	var out []ssa.Value
+	var cmpT []cfgx.Edge
+	for _, b := range fn.Blocks {
+		for _, ins := range b.Instrs {
+			if bo, ok := ins.(*ssa.BinOp); ok && bo.Op == token.EQL {
+				if s, ok := cfgx.ConstString(bo.Y); ok && s == "Never" {
+					in[bo] = true
+					out = append(out, bo)
+					t, _ := cfgx.DirectCondEdges(bo)
+					cmpT = append(cmpT, t...)
+				}
+			}
+		}
+	}
+	for changed := true; changed; {
+		changed = false
+		for _, b := range fn.Blocks {
+			for _, ins := range b.Instrs {
+				phi, ok := ins.(*ssa.Phi)
+				if !ok || in[phi] {
+					continue
+				}
+				ls := leaves(phi)
+				all := len(ls) > 0
+				for _, l := range ls {
+					if !in[l] {
+						all = false
+					}
+				}
+				if all {
+					in[phi] = true
+					out = append(out, phi)
+					changed = true
+				}
+			}
+		}
+	}
+	for _, phi := range cfgx.FlagPhis(fn, cmpT) {
+		if !in[phi] {
+			in[phi] = true
+			out = append(out, phi)
+		}
+	}
+	return out
 }
